@@ -1048,14 +1048,9 @@ def r11(cx):
     table = Q.forward_taint(body, seeds)
     heads = [(b, t) for b, t in Q.find_calls(body, NEXT) if t['a'] and Q.operand_local(t['a'][0]) in table]
     cx.require(heads, 'TrapSet::enter_subshell: no loop over the trap table (Iterator::next on an iterator of TrapSet::traps) found')
+    other_loops = []
+    handed = 0
     for hb, ht in heads:
-        names = Q.callee_names(ht)
-        cx.require(any(PLAIN_TABLE_ITER.match(n) for n in names), 'TrapSet::enter_subshell iterates over the trap table through %s, not a plain '
-                   'BTreeMap iterator: an adaptor could drop entries before the loop body, the rule cannot follow it' % sorted(names))
-        ec = Q.edge_condition(F, body, du, ht['to']) if ht.get('to') is not None else None
-        cx.require(ec is not None and ec[0]['k'] == 'discr', 'the result of Iterator::next over the trap table is not matched right after the call')
-        starts = [tgt for tgt, labs in ec[1].items() if ('variant', 'Some') in labs]
-        cx.require(starts, 'no Some edge after Iterator::next over the trap table')
         entry = Q.forward_taint(body, {ht['dest']['l']})
         through, shown = set(), []
         for b, t in body.calls():
@@ -1073,11 +1068,21 @@ def r11(cx):
                              'the record and the disposition of that signal are not changed for the subshell', loc=body.loc(t))
                 d = b
             through.add(d)
-        cx.site('%s: loop over the trap table at %s; each entry handed to GrandState::enter_subshell at %s' % (body.fn, body.loc(ht), shown))
         if not through:
-            cx.violation(TS_ENTER, 'entries-not-reset', 'the entries of the trap table are not passed to GrandState::enter_subshell on subshell entry: '
-                         'command traps of the parent stay armed in the subshell', loc=body.loc(ht))
+            # a loop over the table that does something else with the records (clear_parent_states written out in place):
+            # not the loop this clause is about, as long as some loop does hand the records on
+            other_loops.append((hb, ht))
+            cx.site('%s: another loop over the trap table at %s (hands nothing to GrandState::enter_subshell)' % (body.fn, body.loc(ht)))
             continue
+        handed += 1
+        names = Q.callee_names(ht)
+        cx.require(any(PLAIN_TABLE_ITER.match(n) for n in names), 'TrapSet::enter_subshell iterates over the trap table through %s, not a plain '
+                   'BTreeMap iterator: an adaptor could drop entries before the loop body, the rule cannot follow it' % sorted(names))
+        ec = Q.edge_condition(F, body, du, ht['to']) if ht.get('to') is not None else None
+        cx.require(ec is not None and ec[0]['k'] == 'discr', 'the result of Iterator::next over the trap table is not matched right after the call')
+        starts = [tgt for tgt, labs in ec[1].items() if ('variant', 'Some') in labs]
+        cx.require(starts, 'no Some edge after Iterator::next over the trap table')
+        cx.site('%s: loop over the trap table at %s; each entry handed to GrandState::enter_subshell at %s' % (body.fn, body.loc(ht), shown))
         p = Q.must_pass(body, starts, through, goal_blocks=set(body.return_blocks()) | {hb})
         if p is not None:
             cx.violation(TS_ENTER, 'entry-skipped', 'an existing entry of the trap table can be skipped on subshell entry without reaching '
@@ -1085,6 +1090,10 @@ def r11(cx):
                          'handles signals WITHOUT an entry - SIGINT/SIGQUIT with an entry (after `trap - INT` or `trap -p`) keep the default action in '
                          'an asynchronous subshell instead of being ignored', loc=body.loc(body.term(p[-2] if len(p) > 1 else p[0])),
                          path=Q.render_path(body, p))
+    if not handed:
+        hb, ht = other_loops[0]
+        cx.violation(TS_ENTER, 'entries-not-reset', 'the entries of the trap table are not passed to GrandState::enter_subshell on subshell entry: '
+                     'command traps of the parent stay armed in the subshell', loc=body.loc(ht))
 
 
 RS.explanation += ' On subshell entry every record of the trap table reaches GrandState::enter_subshell, no test in TrapSet::enter_subshell skips one (R11).'
